@@ -50,7 +50,7 @@ def special(engine, rng, n):
     for i in range(n):
         b = base(engine, "x%04d" % i)
         k1, k2 = rng.sample(KINDS, 2)
-        variant = i % 7
+        variant = i % 8
         pre = [{"do": "Emit", "src": "pl:s1"}] * rng.randint(0, 2)
         feats = {"live-apply", "reconf"}
         if variant == 0:      # stale: plan A, plan + apply B, then apply A
@@ -92,6 +92,14 @@ def special(engine, rng, n):
                            {"do": "Apply", "force": False, "n": 1, "k": 1}, {"do": "WaitHeld", "ms": 5000},
                            {"do": "Start"}, {"do": "ReleaseStore"}, {"do": "AwaitCalls", "ms": 8000}]
             feats |= {"start-during-apply"}
+        elif variant == 7:    # the pipeline is stopped when the apply first looks, and is started at the scheduling point
+            # right after that look (verif hook): everything the apply does from then on is done to a running pipeline
+            k1 = rng.choice(KINDS)
+            steps = pre + [{"do": "StopAndWait"}, {"do": "AwaitCalls", "ms": 8000}, {"do": "Settle"},
+                           {"do": "Plan", "tag": k1, "k": 1},
+                           {"do": "OnHook", "tag": "provisioning.running-checked", "n": 1, "steps": [{"do": "Start"}]},
+                           {"do": "Apply", "force": False, "n": 1}, {"do": "AwaitCalls", "ms": 8000}]
+            feats |= {"start-between-checks"}
         elif variant == 2:    # a store operation of the apply fails
             steps = pre + [{"do": "Plan", "tag": k1, "k": 1}, {"do": "Apply", "force": True}]
             b["store_faults"] = [{"op": rng.choice(["set", "commit", "begin"]), "at": rng.randint(3, 12), "key": ""}]
@@ -144,7 +152,7 @@ def nontrivial(sc, tr):
         return None
     call = next(e for e in tr if e["ev"] == "ApplyCall")
     before = [e for e in tr if e["n"] < call["n"]]
-    return (sc["engine"], tuple(f for f in sc["features"] if f in KINDS + ["stale", "concurrent-apply", "held-apply", "apply-fails", "restart-fails", "inplace-partial-fail", "start-during-apply"]),
+    return (sc["engine"], tuple(f for f in sc["features"] if f in KINDS + ["stale", "concurrent-apply", "held-apply", "apply-fails", "restart-fails", "inplace-partial-fail", "start-during-apply", "start-between-checks"]),
             rets, sum(1 for e in before if e["ev"] == "Emit"), sum(1 for e in before if e["ev"] == "SrcAck"))
 
 
@@ -167,7 +175,7 @@ def run(tier, seed):
     if quick:
         scs = scs[::2] + scs[1::6]
     chk.run(scs, name="apply-everywhere")
-    n = 42 if quick else 840
+    n = 48 if quick else 960
     chk.run(special("v1", rng, n) + special("v2", rng, n), name="apply-special")
     # --- validate: LiveApplyTrace + DataPathTrace
     herr = [tr[0].get("scenario") for tr in chk.traces if any(e["ev"] in ("HarnessError", "ChildTimeout") for e in tr)]
